@@ -231,3 +231,14 @@ Proof.
   intros Hl Hs Hc Hsel. split; [apply (large_content_announced nodelist srt requester content Hl)|].
   split; [apply process_content_connid; try assumption; reflexivity|now apply utp_roundtrip].
 Qed.
+
+(* a peer whose record has no pv entry (a legacy peer) is spoken to in version 0 by every node whose first version is 0:
+   the stream carries the stored bytes unframed in both directions (uses C19's model of the version lookup) *)
+From Shisui Require Import Model.Versions.
+Lemma legacy_peer_unframed rest (c : vcache) node d :
+  c node = None ->
+  node_encode_utp (0 :: rest) c node PvMissing d = Ok d /\ node_decode_utp (0 :: rest) c node PvMissing d = Ok d.
+Proof.
+  intros Hc. unfold node_encode_utp, node_decode_utp, get_or_store. rewrite Hc. unfold idx. cbn [nth_error fst].
+  unfold encode_utp_content, decode_utp_content. change (0 =? 1) with false. split; reflexivity.
+Qed.
